@@ -38,17 +38,17 @@ type cancelScenario struct {
 }
 
 type cancelObs struct {
-	CancelReturnedMs  int      `json:"cancel_returned_ms"` // -1: did not return within the bound
-	SecondCancelMs    int      `json:"second_cancel_ms"`
-	RunsReturned      bool     `json:"runs_returned"`
-	RunErrs           []bool   `json:"run_errs"` // per in-flight run: returned a non-nil error
-	LateRunErr        bool     `json:"late_run_err"`
-	LateRunRan        bool     `json:"late_run_ran"`
-	ScheduleReturned  bool     `json:"schedule_returned"`
-	StartedAfter      []string `json:"started_after_cancel"`
-	WaitingStarted    []string `json:"waiting_started"`
-	SleepersLeft      int      `json:"sleepers_left"`
-	Note              string   `json:"note"`
+	CancelReturnedMs int      `json:"cancel_returned_ms"` // -1: did not return within the bound
+	SecondCancelMs   int      `json:"second_cancel_ms"`
+	RunsReturned     bool     `json:"runs_returned"`
+	RunErrs          []bool   `json:"run_errs"` // per in-flight run: returned a non-nil error
+	LateRunErr       bool     `json:"late_run_err"`
+	LateRunRan       bool     `json:"late_run_ran"`
+	ScheduleReturned bool     `json:"schedule_returned"`
+	StartedAfter     []string `json:"started_after_cancel"`
+	WaitingStarted   []string `json:"waiting_started"`
+	SleepersLeft     int      `json:"sleepers_left"`
+	Note             string   `json:"note"`
 }
 
 func (s cancelScenario) String() string {
